@@ -29,14 +29,16 @@ V2LocalFromNonce(k, n, m, f) ==
   Cat(<<n, XChaChaPoly(k, n, PAETerm(<<Hdr(2, DotLocal), n, f>>), m)>>)
 V2Local(k, r, m, f) == V2LocalFromNonce(k, V2Nonce(r, m), m, f)
 
-V3Local(k, n, m, f, i) ==
+\* the `...With` variants take the AES-CTR counter block as a parameter: the plain operators pass the derived
+\* one, the verification hook (paseto_core::verif, cfg paseto_rs_verif) lets the harness pass boundary blocks
+V3LocalWith(k, n, m, f, i, n2) ==
   LET tmp == Hkdf384(k, E, Cat(<<B(EncKeyInfo), n>>), 48)
       ek == Sl(tmp, 0, 32)
-      n2 == Sl(tmp, 32, 48)
       ak == Hkdf384(k, E, Cat(<<B(AuthKeyInfo), n>>), 48)
       c == CtrXor(ek, n2, m)
       t == Hmac384(ak, PAETerm(<<Hdr(3, DotLocal), n, c, f, i>>))
   IN Cat(<<n, c, t>>)
+V3Local(k, n, m, f, i) == V3LocalWith(k, n, m, f, i, Sl(Hkdf384(k, E, Cat(<<B(EncKeyInfo), n>>), 48), 32, 48))
 
 V4Local(k, n, m, f, i) ==
   LET tmp == Blake2b(k, Cat(<<B(EncKeyInfo), n>>), 56)
@@ -56,14 +58,14 @@ V4ToBeSigned(m, f, i) == PAETerm(<<Hdr(4, DotPublic), m, f, i>>)      \* Ed25519
 
 \* ---------------------------------------------------------------- PIE  (data = t || n || c)
 PieHeader(ver, ktype) == B(KHeader(ver) \o (IF ktype = "local" THEN DotLocalWrapPie ELSE DotSecretWrapPie))
-Pie13(ver, ktype, wk, n, ptk) ==
+Pie13With(ver, ktype, wk, n, ptk, n2) ==
   LET x == Hmac384(wk, Cat(<<B(<<128>>), n>>))
       ek == Sl(x, 0, 32)
-      n2 == Sl(x, 32, 48)
       ak == Sl(Hmac384(wk, Cat(<<B(<<129>>), n>>)), 0, 32)
       c == CtrXor(ek, n2, ptk)
       t == Hmac384(ak, Cat(<<PieHeader(ver, ktype), n, c>>))
   IN Cat(<<t, n, c>>)
+Pie13(ver, ktype, wk, n, ptk) == Pie13With(ver, ktype, wk, n, ptk, Sl(Hmac384(wk, Cat(<<B(<<128>>), n>>)), 32, 48))
 Pie24(ver, ktype, wk, n, ptk) ==
   LET x == Blake2b(wk, Cat(<<B(<<128>>), n>>), 56)
       ek == Sl(x, 0, 32)
@@ -107,24 +109,24 @@ Pke24(ver, xk, epk, xpk, pdk) ==
       t == Blake2b(ak, Cat(<<SealHeader(ver), epk, edk>>), 32)
   IN Cat(<<t, epk, edk>>)
 \* k3: data = t || epk || edk, pk and epk 49-byte compressed points, xk the 48-byte x coordinate
-Pke3(xk, epk, pk, pdk) ==
+Pke3With(xk, epk, pk, pdk, n) ==
   LET tmp == Sha384(Cat(<<B(<<1>>), SealHeader(3), xk, epk, pk>>))
       ek == Sl(tmp, 0, 32)
-      n == Sl(tmp, 32, 48)
       ak == Sha384(Cat(<<B(<<2>>), SealHeader(3), xk, epk, pk>>))
       edk == CtrXor(ek, n, pdk)
       t == Hmac384(ak, Cat(<<SealHeader(3), epk, edk>>))
   IN Cat(<<t, epk, edk>>)
+Pke3(xk, epk, pk, pdk) == Pke3With(xk, epk, pk, pdk, Sl(Sha384(Cat(<<B(<<1>>), SealHeader(3), xk, epk, pk>>)), 32, 48))
 \* k1: data = t || edk || c, c = r^e mod N at the fixed width of 512 bytes
-Pke1(r, c, pdk) ==
+Pke1With(r, c, pdk, n) ==
   LET kk == Sha384(c)
       x == Hmac384(kk, Cat(<<B(<<1>>), SealHeader(1), r>>))
       ek == Sl(x, 0, 32)
-      n == Sl(x, 32, 48)
       ak == Hmac384(kk, Cat(<<B(<<2>>), SealHeader(1), r>>))
       edk == CtrXor(ek, n, pdk)
       t == Hmac384(ak, Cat(<<SealHeader(1), c, edk>>))
   IN Cat(<<t, edk, c>>)
+Pke1(r, c, pdk) == Pke1With(r, c, pdk, Sl(Hmac384(Sha384(c), Cat(<<B(<<1>>), SealHeader(1), r>>)), 32, 48))
 
 \* ---------------------------------------------------------------- key ids and key text
 KeyKindLabel(kind) == CASE kind = "local" -> DotLocal [] kind = "public" -> DotPublic [] kind = "secret" -> DotSecret
